@@ -129,7 +129,89 @@ func runC16(c *vf.Ctx) {
 	c16Concurrent(c)
 	c16HostNoTopic(c)
 	c16Blocked(c)
+	c16Callback(c)
 	c16Pubsub(c)
+}
+
+// a Direct call is inside the application's allow callback (which takes its time) when the other calls are made:
+// none of them may wait for the callback
+func c16Callback(c *vf.Ctx) {
+	const sub = "calls-while-allow-callback-runs"
+	if !c.Active(sub) {
+		return
+	}
+	n := c.N(24, 600)
+	pid := Keys()["ed25519"][0].ID
+	for i := 0; i < n; i++ {
+		if !c.Mine(sub, i) || c16TooManyHangs() {
+			continue
+		}
+		r := c.Rand(sub, i)
+		order := [][]string{{"Uncache", "Next", "Close"}, {"Close", "Uncache", "Next"}, {"Direct", "Close", "Next"}, {"Uncache", "Direct", "Close"}}[r.Intn(4)]
+		desc := fmt.Sprintf("a Direct call is inside the allow callback; then %v", order)
+		c.Cur(sub, i, desc)
+		wit := func() any { return map[string]any{"scenario": desc} }
+		gate := make(chan struct{})
+		entered := make(chan struct{}, 1)
+		var park atomic.Bool
+		park.Store(true)
+		allow := func(peer.ID) bool {
+			if park.CompareAndSwap(true, false) {
+				entered <- struct{}{}
+				<-gate
+			}
+			return true
+		}
+		rc, err := announce.NewReceiver(nil, "", announce.WithAllowPeer(allow))
+		if err != nil {
+			c.Fail(sub, i, "receiver-create-error", err.Error(), wit())
+			continue
+		}
+		parked := make(chan error, 1)
+		go func() {
+			parked <- rc.Direct(context.Background(), c09Cid(6000), peer.AddrInfo{ID: pid, Addrs: []multiaddr.Multiaddr{c09Marker(1)}})
+		}()
+		select {
+		case <-entered:
+		case <-time.After(20 * time.Second):
+			c.Inconclusive(sub, i, "callback-not-reached", "", nil)
+			close(gate)
+			continue
+		}
+		closed := false
+		ok := true
+		for k, op := range order {
+			res := c16Do(rc, op, 300+k)
+			if res.verdict == vf.Hung {
+				c16Hangs.Add(1)
+				c.Fail(sub, i, "hang:"+op+"-while-allow-callback-runs:"+vf.LibFrame(res.dump), fmt.Sprintf("%s; %s (call %d) is blocked inside the library\n%s", desc, op, k, res.dump), wit())
+				ok = false
+				break
+			}
+			if !c16CheckResult(c, sub, i, order, k, res, closed, wit) {
+				ok = false
+				break
+			}
+			if op == "Close" {
+				closed = true
+			}
+		}
+		close(gate)
+		select {
+		case e := <-parked:
+			if ok && closed && !errors.Is(e, announce.ErrClosed) && e != nil {
+				c.Fail(sub, i, "parked-direct-unexpected-error", e.Error(), wit())
+			}
+		case <-time.After(c16Watchdog):
+			c.Inconclusive(sub, i, "parked-direct-did-not-return", "", wit())
+		}
+		if !closed || !ok {
+			_ = rc.Close()
+		}
+		c.Eval(1)
+		c.Inc("calls_made_while_allow_callback_ran")
+		c.Distinct(sub, desc)
+	}
 }
 
 // calls that are blocked inside the receiver when Close runs (Direct on a full buffer with no consumer, Next on an
@@ -576,13 +658,21 @@ func c16Pubsub(c *vf.Ctx) {
 					return
 				}
 				nclose := 1 + r.Intn(3)
+				var stopPubsubFirst bool
 				wit := func() any {
-					return map[string]any{"pubsub": true, "concurrent_closers": nclose, "allow_callback_delay": delay.String(), "resend": !ownTopic, "announcements_in_allow_callback_before_close": inAllow.Load()}
+					return map[string]any{"pubsub": true, "pubsub_stopped_before_close": stopPubsubFirst, "concurrent_closers": nclose, "allow_callback_delay": delay.String(), "resend": !ownTopic, "announcements_in_allow_callback_before_close": inAllow.Load()}
 				}
 				// start Close right after the watcher entered the allow callback (it is between its steps)
 				before := inAllow.Load()
 				for w := 0; w < 2000 && inAllow.Load() == before; w++ {
 					time.Sleep(200 * time.Microsecond)
+				}
+				stopPubsubFirst = r.Intn(3) == 0
+				if stopPubsubFirst {
+					// the owner of the shared topic stops its pubsub before the receiver is closed
+					cancelPS()
+					time.Sleep(time.Duration(1+r.Intn(5)) * time.Millisecond)
+					c.Inc("pubsub_stopped_before_receiver_close")
 				}
 				var wg sync.WaitGroup
 				okAll := true
